@@ -214,6 +214,10 @@ pub fn render_elem(e: &ElemIn) -> RenderedElem {
         BodyIn::Union(_) => "union",
     };
     out.push_str(&format!("{} {}", kw, e.ident));
+    if e.generics.is_empty() && e.where_clause.as_ref().map(|w| w.len() % 2 == 0).unwrap_or(false) {
+        // an empty parameter list is a parameter list too
+        out.push_str("<>");
+    }
     if !e.generics.is_empty() {
         out.push('<');
         for (i, g) in e.generics.iter().enumerate() {
